@@ -155,6 +155,13 @@ Definition reaches (exact : bool) (c : cid) (o : occ) : bool :=
   Nat.eqb (kind_of c) (o_kind o)
   || (negb exact && Nat.eqb (kind_of c) 1 && (Nat.eqb (o_kind o) 2 || Nat.eqb (o_kind o) 3)).
 
+(* in-memory store, two threads: a reporter loaded the pending dict object, a loop iteration of another thread cleared
+   the processed valid conditions `cl`, then the reporter stores `v` through the object it loaded.  Cleared in place
+   the store sees the write; when clear re-binds the attribute to a new dict the write lands in the discarded one. *)
+Definition drop_all (cl p : list vc) : list vc := filter (fun w => negb (inb w cl)) p.
+Definition record_after_clear (in_place : bool) (p cl : list vc) (v : vc) : list vc :=
+  if in_place then drop_all cl p ++ [v] else drop_all cl p.
+
 (* record_valid_condition: keyed store; re-recording keeps the position in the in-memory dict,
    moves the row to the end under SQLite's INSERT OR REPLACE *)
 Definition record_vc (to_end : bool) (v : vc) (s : state) : state :=
